@@ -44,7 +44,7 @@ class FortranRegularExpressions:
     END_BLOCK: Pattern = compile(r"BLOCK|CRITICAL", I)
     DO: Pattern = compile(r"[ ]*(?:[a-z_]\w*[ ]*:[ ]*)?DO([ ]+[0-9]*|$)", I)
     END_DO: Pattern = compile(r"DO", I)
-    WHERE: Pattern = compile(r"[ ]*WHERE[ ]*\(", I)
+    WHERE: Pattern = compile(r"[ ]*(?:[a-z_]\w*[ ]*:[ ]*)?WHERE[ ]*\(", I)
     END_WHERE: Pattern = compile(r"WHERE", I)
     IF: Pattern = compile(r"[ ]*(?:[a-z_]\w*[ ]*:[ ]*)?IF[ ]*\(", I)
     THEN: Pattern = compile(r"\)[ ]*THEN$", I)
